@@ -277,7 +277,7 @@ func (g *Gen) record(it *Item) *Item {
 // ---------------------------------------------------------------- gas rules
 
 const (
-	bigGas   = uint64(30000000) // ample for every embedded contract path
+	bigGas   = uint64(300000000) // ample for every embedded contract path (value-transfer fees inside contracts are charged as gas per coin moved)
 	storeGas = uint64(400000)
 )
 
@@ -780,7 +780,12 @@ func (g *Gen) make(k Kind) *Item {
 			if !g.Cfg.BlockOnly {
 				return nil
 			}
-			return g.TokenTransfer(h.a, h.t, g.eoaTarget(), add(av, bi(int64(1+g.T.Int(100)))))
+			// far above any possible balance (issues pending in the same block
+			// included): a token transfer that unexpectedly succeeded would starve
+			// the sender's later account->hidden transactions, whose token balance
+			// is checked at the validity stage
+			_ = av
+			return g.TokenTransfer(h.a, h.t, g.eoaTarget(), add(new(big.Int).Lsh(bi(1), 128), bi(int64(g.T.Int(100)))))
 		case KTokenContract:
 			c, ok := g.pickAddr(g.liveNotDying(CStore))
 			if !ok {
